@@ -319,6 +319,20 @@ pub fn parse_currency_non_commodity(input: &str) -> Result<String, ParseError> {
 
 /// Parse amount with optional decimal places
 pub fn parse_amount(input: &str) -> Result<f64, ParseError> {
+    // Digits and at most one decimal separator only: f64's own parser would also
+    // accept signs, exponents, "inf" and "NaN"
+    let separators = input.chars().filter(|c| *c == ',' || *c == '.').count();
+    if separators > 1
+        || !input.chars().any(|c| c.is_ascii_digit())
+        || !input
+            .chars()
+            .all(|c| c.is_ascii_digit() || c == ',' || c == '.')
+    {
+        return Err(ParseError::InvalidFormat {
+            message: format!("Invalid amount format: '{}' is not a decimal number", input),
+        });
+    }
+
     // Remove any commas (European decimal separator handling)
     let normalized = input.replace(',', ".");
 
